@@ -311,7 +311,7 @@ func init() {
 	add("transform-origin", kw("0 0", "center", "100% 100%", "left top", "10px", "1e9px 1e9px", "top", "50% 50% 10px"), 2)
 	add("font-size", func(g *gen) string {
 		if g.r.Chance(1, 2) {
-			return vlib.Pick(g.r, []string{"0", "1px", "0.01px", "1e4px", "1e9px", "200%", "2em", "larger", "smaller", "xx-small", "xxx-large", "medium", "-5px", "1e38px", "0.5rem"})
+			return vlib.Pick(g.r, []string{"0", "1px", "0.01px", "1e4px", "1e9px", "200%", "2em", "larger", "smaller", "xx-small", "xxx-large", "medium", "-5px", "1e38px", "0.5rem", "2ex", "3ch", "1.5ex"})
 		}
 		return fmt.Sprintf("%dpx", g.r.Range(1, 60))
 	}, 10)
@@ -341,9 +341,9 @@ func init() {
 	add("hyphens", kw("none", "manual", "auto"), 4)
 	add("hyphenate-character", kw("'-'", "auto", "''", "'abc'", "'\u2010'"), 1)
 	add("hyphenate-limit-chars", kw("auto", "5 2 2", "0 0 0", "1", "100 50 50", "auto 1"), 1)
-	add("hyphenate-limit-zone", kw("0", "50%", "1e9px", "10px", "-5px"), 1)
+	add("hyphenate-limit-zone", kw("0", "50%", "1e9px", "10px", "-5px", "1ex", "2ch"), 1)
 	add("lang", kw("'en'", "'fr'", "'he'", "'xx'", "''", "none", "attr(lang)"), 1)
-	add("tab-size", kw("0", "4", "8", "1e9", "10px", "-1"), 2)
+	add("tab-size", kw("0", "4", "8", "1e9", "10px", "-1", "2ch", "1ex"), 2)
 	add("direction", kw("rtl", "ltr"), 6)
 	add("unicode-bidi", kw("normal", "embed", "isolate", "bidi-override", "isolate-override", "plaintext"), 3)
 	add("text-overflow", kw("clip", "ellipsis"), 2)
@@ -704,7 +704,15 @@ func (g *gen) rule(depth int) Rule {
 		return ru
 	case k < 11:
 		return Rule{NoBlk: true, Pre: vlib.Pick(r, []string{"@import url(sheet2.css)", "@import 'missing.css'", "@import url(loop.css)", "@import url(pattern.png)", "@import", "@import url(sheet2.css) screen", "@import 'user.css' print", "@import url()", "@namespace svg url(http://www.w3.org/2000/svg)", "@namespace url(http://www.w3.org/1999/xhtml)", "@namespace", "@charset \"utf-8\"", "@unknown foo", "@", "@-", "@page", "@media", "@font-face", "@counter-style x", "@import url(data:text/css,p%7Bcolor:red%7D)"})}
-	case k < 13:
+	case k < 15:
+		// generated content with page-based counters / targets: these ask for re-pagination rounds
+		sel := g.simpleSel() + vlib.Pick(r, []string{"::before", "::after", "::before", "::after", "::marker", ""})
+		ds := []Decl{{N: "content", V: vlib.Pick(r, []string{"counter(pages)", "counter(page) '/' counter(pages)", "target-counter(attr(href), page)", "target-counter(attr(href), pages)", "target-counters(attr(href), c, '.')", "target-text(attr(href))", "'p.' target-counter('#t1', page)", "string(s)", "counter(page, upper-roman)", "counters(pages, '-')", "target-counter(attr(href), c) ' ' counter(pages)"})}}
+		if r.Chance(1, 3) {
+			ds = append(ds, g.decls(1, 2)...)
+		}
+		return Rule{Pre: sel, Decls: ds}
+	case k < 17:
 		return Rule{Raw: vlib.Pick(r, []string{"}", "{", "{}", "p {", "p { color: red", "@media print {", "@page { @top-left { content: 'x'", "<!--", "-->", "/* unterminated", "p { color: red } }", "@supports (display: grid) { p { color: red } }", "@font-feature-values f { @styleset { a: 1 } }", "@keyframes k { from { top: 0 } to { top: 1px } }", "@layer a, b;", "@page :first { size: 0 } }", "div { & p { color: red } }", "p { color: red; @media print { color: blue } }", "@counter-style { }", "@counter-style a b { system: cyclic; symbols: x }", "@page { size: }", "@page { margin: 1px 2px 3px 4px 5px }", "\\", "'", "url(", "#-", "@-", "1-", "-", "p { \\", "p[", "p { width: 10px }}}}", ";;;;", "@media { p { display: none } }"})}
 	}
 	return Rule{Pre: g.selector(), Decls: g.someDecls()}
